@@ -31,7 +31,9 @@ RULE = ("sessions on generated directories: 2-4 loaded species (1-3 residues eac
         "call sequences: all ends+maps+extrapolate, no end, no maps, an end molecule added after the maps were "
         "calculated (then completed), two scale factors in turn, re-adding the same end, growing subset, unknown / "
         "non-matching end molecule, end molecules with velocities (all / mixed), a target with another number of "
-        "residues; one title line in twelve is empty; plus the shipped BMIM/BF4 box. A session is non-trivial when distinct.")
+        "residues; one title line in twelve is empty; half of the Systems built step by step (constructor with the first "
+        "0..n topologies, add_ftop / add_molecule_top for the rest, any order); residue numbers consecutive, with gaps, "
+        "arbitrary, or repeated across molecules; plus the shipped BMIM/BF4 box. A session is non-trivial when distinct.")
 
 ECODES = [(OSError, 1), (IndexError, 2), (ValueError, 3), (SystemError, 5), (TypeError, 6), (KeyError, 7)]
 
@@ -200,6 +202,15 @@ def gen_spec(rs, kind=None, big=False):
     spec = {"title": title, "box": box, "species": species, "tokens": tokens, "mols": mols,
             "load_order": load_order, "not_loaded": not_loaded, "resid0": resid0,
             "sys_vel": bool(rs.randint(0, 5) == 0), "rand_seed": int(rs.randint(0, 2 ** 31 - 1))}
+    # how the System is built: the first n_ctor topologies go to the constructor, the others are added afterwards
+    # with add_ftop (0) / add_molecule_top (1), in load order
+    spec["n_ctor"] = len(load_order) if rs.randint(0, 2) else int(rs.randint(0, len(load_order) + 1))
+    spec["add_how"] = [int(rs.randint(0, 2)) for _ in load_order]
+    # residue numbering of the input file
+    spec["resid_mode"] = str(rs.choice(["consecutive", "consecutive", "consecutive", "gapped", "gapped",
+                                        "nonmonotone", "repeated"]))
+    if spec["resid_mode"] != "consecutive":
+        spec["rids"] = gen_rids(rs, spec, spec["resid_mode"])
     spec["ops"], spec["pattern"] = gen_ops(rs, spec, with_end, s, s2, kind)
     if spec["pattern"] == "residue_mismatch":
         # a target with another number of residues than the species has in the system (ValueError from the setter)
@@ -216,6 +227,40 @@ def gen_spec(rs, kind=None, big=False):
             if sp["aa_vel"] is not None:
                 sp["aa_vel"].append([0.0, 0.0, 0.0])
     return spec
+
+
+def nres_of(spec, t):
+    return 1 if t == "W" else len(set(a[2] for a in spec["species"][t]["cg_atoms"]))
+
+
+def gen_rids(rs, spec, mode):
+    """residue numbers of every molecule of the file (list per molecule).  Neighbouring residues always get different
+    numbers (the file is cut into residues where (number, name) changes).
+      gapped      increasing, with gaps inside and between molecules (residues removed / files concatenated)
+      nonmonotone arbitrary numbers in 0..99999
+      repeated    every molecule numbered again from a small base: the same numbers occur in many molecules"""
+    out, r = [], spec["resid0"]
+    prev = None
+    for j, t in enumerate(spec["tokens"]):
+        n = nres_of(spec, t)
+        if mode == "gapped":
+            ids = []
+            for _ in range(n):
+                r += 1 + (int(rs.randint(1, 25)) if rs.randint(0, 3) == 0 else 0)
+                ids.append(r % 100000)
+        elif mode == "nonmonotone":
+            ids = []
+            for _ in range(n):
+                x = int(rs.randint(0, 100000))
+                while x == prev or x in ids[-1:]:
+                    x = int(rs.randint(0, 100000))
+                ids.append(x)
+        else:
+            base = (j % 3) * 10 + 1
+            ids = [base + i for i in range(n)]
+        prev = ids[-1]
+        out.append(ids)
+    return out
 
 
 PATTERNS = ["normal", "normal", "normal", "normal", "no_end", "no_calc", "late_end", "late_end", "two_scales", "readd",
@@ -320,6 +365,26 @@ def alt_end(sp):
 
 
 # ===================================================================== implementation driver
+def build_manager(spec, d):
+    """Manager.from_files(gro, *itps) when every topology goes to the constructor; otherwise the System is built
+    step by step (constructor with the first n_ctor topologies, then add_ftop / add_molecule_top) and handed to
+    Manager(system) - what the command line's discovery and a user exploring a system do"""
+    from gaddlemaps import Manager
+    from gaddlemaps.components import System, MoleculeTop
+    order = spec["load_order"]
+    n_ctor = spec.get("n_ctor", len(order))
+    if n_ctor >= len(order):
+        return Manager.from_files(d["sys"], *[d["cg"][k] for k in order])
+    system = System(d["sys"], *[d["cg"][k] for k in order[:n_ctor]])
+    how = spec.get("add_how") or [0] * len(order)
+    for i in range(n_ctor, len(order)):
+        if how[i]:
+            system.add_molecule_top(MoleculeTop(d["cg"][order[i]]))
+        else:
+            system.add_ftop(d["cg"][order[i]])
+    return Manager(system)
+
+
 def run_session(spec, keep=False):
     """runs the call sequence on the real Manager.  Returns (obs, ctxobj): obs = one dict per op;
     ctxobj = dict(man, ends) for the oracle's direct calls."""
@@ -327,7 +392,7 @@ def run_session(spec, keep=False):
     from gaddlemaps.components import Molecule
     d = write_directory(spec)
     np.random.seed(spec["rand_seed"] % (2 ** 32))
-    man = Manager.from_files(d["sys"], *[d["cg"][k] for k in spec["load_order"]])
+    man = build_manager(spec, d)
     ends = {}
     obs = []
     book = Bookkeeping(spec)
@@ -734,7 +799,11 @@ def shipped_spec(nmol, s=0.5, pattern="normal"):
             "mols": mols, "rids": rids, "load_order": [1, 0], "not_loaded": [], "resid0": firstres, "sys_vel": False,
             "rand_seed": 12345, "shipped_nmol": nmol, "pattern": "shipped_" + pattern}
     ends = [["end", 0], ["end", 1]]
-    if pattern == "late_end":
+    if pattern == "incremental":
+        # System(gro, BMIM_CG.itp) then add_ftop(BF4_CG.itp): every BF4 precedes every BMIM in the shipped file
+        spec["n_ctor"], spec["add_how"] = 1, [0, 0]
+        spec["ops"] = ends + [["calc", s], ["extrap"]]
+    elif pattern == "late_end":
         spec["ops"] = [ends[0], ["calc", s], ends[1], ["extrap"], ["calc", s], ["extrap"]]
     else:
         spec["ops"] = ends + [["calc", s], ["extrap"]]
@@ -813,10 +882,57 @@ def corpus_specs():
             spec = gen_spec(rs, kind=pat)
         out.append(spec)
     out.append(empty_title_spec(rs))
+    out += [incremental_witness(rs), gapped_resids_witness(rs)]
     return out
 
 
-def relayout(rs, spec, tokens, with_end):
+def _two_species(rs, need_two_residues):
+    """a generated spec with two loaded species a, b (a with two residues and >= 3 atoms if asked), both in domain"""
+    while True:
+        spec = gen_spec(rs, kind="normal")
+        lo = spec["load_order"]
+        if len(lo) < 2:
+            continue
+        cand = [k for k in lo if len(spec["species"][k]["cg_atoms"]) >= 3 and
+                (not need_two_residues or nres_of(spec, k) == 2)]
+        if not cand:
+            continue
+        a = cand[0]
+        b = [k for k in lo if k != a][0]
+        if in_domain(spec, [a, b]):
+            return spec, a, b
+
+
+def incremental_witness(rs):
+    """seeded C05-5: System(gro, B.itp) then add_ftop(A.itp) on the file A B A B A; both mapped: the output must
+    follow the file, not the order in which the species were identified"""
+    spec, a, b = _two_species(rs, False)
+    spec = relayout(rs, spec, [a, b, a, "W", b, a], [a, b], n_ctor=1, load_order=[b, a])
+    spec["pattern"] = "incremental_system"
+    return spec
+
+
+def gapped_resids_witness(rs):
+    """seeded C05-6: a mapped two-residue species whose molecules carry the residue numbers (9,12) and (20,30)"""
+    spec, a, b = _two_species(rs, True)
+    toks = [a, b, a, "W", a, b, a, "W", a]
+    rids, r = [], 0
+    special = {4: [9, 12], 6: [20, 30]}
+    for j, t in enumerate(toks):
+        n = nres_of(spec, t)
+        if j in special:
+            ids = special[j]
+            r = ids[-1]
+        else:
+            ids = [r + 1 + i for i in range(n)]
+            r = ids[-1]
+        rids.append(ids)
+    spec = relayout(rs, spec, toks, [a, b], rids=rids)
+    spec["pattern"] = "gapped_resids"
+    return spec
+
+
+def relayout(rs, spec, tokens, with_end, rids=None, n_ctor=None, load_order=None):
     """the same species in another file layout; every listed species gets its end molecule"""
     L = spec["box"][:3]
     mols = []
@@ -828,8 +944,14 @@ def relayout(rs, spec, tokens, with_end):
         p = (g - g.mean(axis=0)) @ random_rotation(rs).T + rs.uniform(0.1, 0.9, size=3) * L
         mols.append(r3a(p))
     spec = dict(spec, tokens=tokens, mols=mols)
+    spec.pop("rids", None)
+    spec["resid_mode"] = "consecutive"
+    if rids is not None:
+        spec["rids"], spec["resid_mode"] = rids, "explicit"
     present = set(t for t in tokens if t != "W")
-    spec["load_order"] = [k for k in spec["load_order"] if k in present]
+    spec["load_order"] = [k for k in (load_order or spec["load_order"]) if k in present]
+    spec["n_ctor"] = len(spec["load_order"]) if n_ctor is None else n_ctor
+    spec["add_how"] = [0] * len(spec["load_order"])
     spec["not_loaded"] = [k for k in spec["not_loaded"] if k in present]
     for k in present:
         sp = spec["species"][k]
@@ -850,7 +972,7 @@ def corpus(ctx):
         check_spec(ctx, spec, "corpus")
         S["corpus"] += 1
         molgen.purge()
-    for pat in ("normal", "late_end"):
+    for pat in ("normal", "late_end", "incremental"):
         check_spec(ctx, shipped_spec(6, pattern=pat), "corpus (shipped BMIM/BF4, first 6+6 molecules)")
         S["corpus"] += 1
         molgen.purge()
@@ -861,7 +983,9 @@ def describe(spec):
     return {"pattern": spec["pattern"], "species": len(spec["species"]), "loaded": len(spec["load_order"]),
             "molecules": len(spec["tokens"]), "max_residues": max(nres),
             "small_reference": any(len(sp["cg_atoms"]) < 3 for sp in spec["species"]),
-            "triclinic": len(spec["box"]) == 9}
+            "triclinic": len(spec["box"]) == 9,
+            "incremental": spec.get("n_ctor", len(spec["load_order"])) < len(spec["load_order"]),
+            "resid_mode": spec.get("resid_mode", "consecutive")}
 
 
 def correspondence(ctx):
@@ -870,13 +994,15 @@ def correspondence(ctx):
     specs = corpus_specs() + [gen_spec(rs) for _ in range(n)]
     specs.append(shipped_spec(ctx.n(10, 40)))
     specs.append(shipped_spec(ctx.n(10, 40), pattern="late_end"))
+    specs.append(shipped_spec(ctx.n(10, 40), pattern="incremental"))
     if not ctx.quick:
         # 100 + 100 molecules (3000 written atoms): the writer model rewrites its byte list at every write, the whole
         # box (9000 atoms) is beyond vm_compute's reach in K and goes through the S oracle (oracle(), thorough tier)
         specs.insert(0, shipped_spec(100, s=1.0))       # first: its shard is the longest
     cases, metas, hist = [], [], {}
     feat = {"triclinic": 0, "small_reference": 0, "multi_residue": 0, "wrap_resid": 0, "velocities": 0, "extrap_calls": 0,
-            "files_written": 0, "refused_no_file": 0, "empty_title": 0}
+            "files_written": 0, "refused_no_file": 0, "empty_title": 0, "incremental_system": 0,
+            "resid_gapped": 0, "resid_nonmonotone": 0, "resid_repeated": 0}
     for spec in specs:
         obs, bad = check_spec(ctx, spec, "K case")
         cases.append(case_term(spec, obs))
@@ -888,6 +1014,9 @@ def correspondence(ctx):
         feat["multi_residue"] += d["max_residues"] > 1
         feat["wrap_resid"] += spec["resid0"] > 90000
         feat["empty_title"] += spec["title"] == ""
+        feat["incremental_system"] += d["incremental"]
+        if "resid_" + d["resid_mode"] in feat:
+            feat["resid_" + d["resid_mode"]] += 1
         feat["velocities"] += any(sp.get("aa_vel") is not None for sp in spec["species"])
         for o in obs:
             if o["op"][0] == "extrap":
